@@ -827,8 +827,11 @@ pub fn judge_c20(info: &Info, log: &RunLog, rep: &mut Report) {
     rcv_points.sort_by_key(|x| x.0);
     // a re-spawned receive transaction (stray data after the end) starts from zero: judge only the first span
     let first_recv_end = d.spans(id, TaskKind::Recv).first().and_then(|s| s.end_us).unwrap_or(u64::MAX);
+    // (a PDU logged after the first task's end event cannot be that task's, even at the same instant; an
+    // indication of the end instant still is, because indications reach the user through a channel)
+    let first_end_idx = log.recs.iter().position(|r| matches!(&r.ev, Ev::Task(cfdp_daemon::verif::TaskEvent::End(i, TaskKind::Recv)) if *i == id)).unwrap_or(usize::MAX);
     for (li, tu, prog, what) in &rcv_points {
-        if *tu > first_recv_end {
+        if *tu > first_recv_end || (what == "KeepAlive" && *li > first_end_idx) {
             continue;
         }
         figures += 1;
@@ -915,7 +918,10 @@ pub fn run_c20(tier: &str, seed: u64, replay: Option<&str>) -> (Meta, Report) {
         extra: vec![],
     };
     if let Some(r) = replay {
-        let (_, fam, idx, sd) = parse_case(r);
+        let (p, fam, idx, sd) = parse_case(r);
+        if p != "C20" {
+            return (meta, run_single(crate::p_xfer::any_case(r).expect("case"), judge_c20));
+        }
         return (meta, run_single(c20_case(&fam, idx, sd).expect("case"), judge_c20));
     }
     let n = if thorough { 400_000 } else { 3_000 };
@@ -924,5 +930,12 @@ pub fn run_c20(tier: &str, seed: u64, replay: Option<&str>) -> (Meta, Report) {
         rep.merge(run_cases(n, "c20", move |i| c20_case(fam, i, seed), judge_c20));
         rep.add(&format!("cases:{}", fam), n as u64);
     }
+    // the same oracle over other properties' workloads (figures in Fault / Resumed / Abandon indications)
+    let nx = if thorough { 100_000 } else { 1_000 };
+    rep.merge(run_cases(nx, "c20-x-c19rand", move |i| c19_case("rand", i, seed), judge_c20));
+    rep.merge(run_cases(nx, "c20-x-c03primseq", move |i| crate::p_xfer::c03_case("primseq", i, seed), judge_c20));
+    rep.merge(run_cases(nx, "c20-x-c03late", move |i| crate::p_xfer::c03_case("late", i, seed), judge_c20));
+    rep.merge(run_cases(nx, "c20-x-c02adaptive", move |i| crate::p_xfer::c02_case("adaptive", i, seed), judge_c20));
+    rep.add("cases:cross(c19-rand,c03-primseq,c03-late,c02-adaptive)", 4 * nx as u64);
     (meta, rep)
 }
